@@ -15,10 +15,16 @@ use super::*;
 use pre::*;
 
 #[verifier::external_type_specification] pub struct ExUndeclaredFixture(UndeclaredFixture);
+#[verifier::external_type_specification] pub struct ExFixtureCycle(FixtureCycle);
+//@item src/fixtures/mod.rs struct EditableInstall
 
-//@dbstruct_arc definitions file_definitions usages usage_by_fixture definitions_version file_cache undeclared_fixtures imports
+// v2: EVERY field of the database except ast_cache (its value type needs the rustpython AST type specs; this unit
+// runs without them) -- so that `rest()` (prelude/index_dbspecs_all.rs: all the non-index fields listed here) makes
+// the frame clause `final(self).rest() == old(self).rest()` of the contracts below speak about all of them.  The
+// contract TEXT is unchanged; a consumer's own `rest()` may list any SUBSET of these fields.
+//@dbstruct_arc definitions file_definitions usages usage_by_fixture definitions_version file_cache undeclared_fixtures imports canonical_path_cache line_index_cache cycle_cache available_fixtures_cache imported_fixtures_cache site_packages_paths editable_install_roots workspace_root plugin_fixture_files
 
-//@include prelude/index_dbspecs.rs
+//@include prelude/index_dbspecs_all.rs
 
 broadcast use {axiom_default_vec, axiom_default_hashset};
 
